@@ -160,6 +160,38 @@ Definition expand_name (st : state) (ctx : obj) (dotted : path) : path := expand
 Definition resolve_name (st : state) (ctx : obj) (dotted : path) : option obj :=
   obj_for st (expand_name st ctx dotted).
 
+(* ---------------------------------------------------------------- the guard of the soundness theorem *)
+Definition is_some {A} (o : option A) : bool := match o with Some _ => true | None => false end.
+
+(* the part of expandName's walk that C04 vouches for: the first part is bound in the context itself, and no
+   later part is found by falling back from a class to its enclosing scope (see the _refuted theorems) *)
+Fixpoint trail_ok (st : state) (o : obj) (first : bool) (parts : list name) : bool :=
+  match parts with
+  | [] => true
+  | p :: rest =>
+    let fn := l2f st o p in
+    let own := is_some (child st o p) || is_some (assoc p (o_amap o)) in
+    let fm := find_for st o p in
+    let here :=
+      if first then own
+      else match o_kind o with
+           | KClass => if own then negb (path_eqb fn [p]) || negb (is_some fm) else path_eqb fn [p]
+           | _ => true
+           end in
+    let notfound := path_eqb fn [p] && negb first in
+    let fn1 := if notfound then match fm with Some inh => o_path inh | None => fn end else fn in
+    here &&
+    (if notfound && path_eqb fn1 [p] then true
+     else match rest with
+          | [] => true
+          | _ => match obj_for st fn1 with
+                 | None => true
+                 | Some nxt => trail_ok st nxt false rest
+                 end
+          end)
+  end.
+
+
 (* ---------------------------------------------------------------- relative imports *)
 (* visit_ImportFrom: `parent = ctx.parentMod; if package: level -= 1; for _ in range(level): parent = parent.parent` *)
 Fixpoint walk_up (steps : nat) (p : option path) : option path :=
